@@ -1,5 +1,6 @@
 SPECIFICATION Spec
 CONSTANTS
+  Shortcut = "none"
   Lo <- LoWide
   Hi <- HiWide
   Stride = 320
